@@ -863,8 +863,13 @@ impl<K: Kind> Scenario for Bf<K> {
                 if !ok_perm || l2v.len() != before.len() {
                     ctx.fail("perm-broken", "var_to_level/level_to_var are not inverse permutations after reordering");
                 }
-                // every handle denotes the same function
-                let names: Vec<String> = self.h.keys().cloned().collect();
+                // every handle denotes the same function (a sample when there are very many)
+                let mut names: Vec<String> = self.h.keys().cloned().collect();
+                if names.len() > 1500 {
+                    names.sort();
+                    let stride = names.len() / 1000;
+                    names = names.into_iter().step_by(stride).collect();
+                }
                 for k in names {
                     let f = self.h[&k].clone();
                     let act = self.actual_tt(&f, ctx, "after reorder");
